@@ -4,6 +4,7 @@
         every run, cross-checks its reading with the compiled rule objects (hook rule_inventory) and
         regenerates Gen/Rules.v + Gen/ExprObligations.v; Props/C01.v re-proves `sound` for every
         expression rule without a counterexample and `refuted` for the others;
+        likewise the plan rules of plan.rs that have a meaning in Model/PlanSem.v get `psound` / `prefuted` obligations;
   (ii)  the refuted rules must be exactly the ones listed in the known finding; each rule's
         left-hand side is instantiated over a table of all small NULL / boolean / integer
         combinations and run with the optimiser on and off;
@@ -100,6 +101,15 @@ def run(R, only=None):
         R.property_fails("KF_C01_null_unsound_expr_rules" if name in allowed else None,
                          f"C01 rewrite rule `{name}`: {lhs} => {rhs} changes the value for {wit} (refuted in the model: Gen/ExprObligations.v)",
                          {"kind": "rule-instance", "rule": name, "lhs": lhs, "rhs": rhs, "instantiation": {k: v for k, v in wit.items()}})
+    # plan rules refuted in the model (Gen/PlanObligations.v): each must be listed by a known finding
+    plan_allowed = {r: f["class"] for f in known_findings("C01") if f.get("status") == "open" for r in f.get("rules", [])
+                    if f.get("class") != "KF_C01_null_unsound_expr_rules"}
+    for name, wit in info.get("plan_refuted", {}).items():
+        _, _, lhs, rhs, conds = src[name]
+        R.property_fails(plan_allowed.get(name),
+                         f"C01 plan rewrite rule `{name}`: {' '.join(lhs.split())} => {' '.join(rhs.split())} changes the number of rows returned for the binding "
+                         f"{wit} (refuted in the model: Gen/PlanObligations.v)",
+                         {"kind": "rule-instance", "rule": name, "lhs": lhs, "rhs": rhs, "binding": wit})
     # ---- rule instances on the real engine: optimiser on vs off -------------------------------------------
     ints, bools = ["null", "0", "1", "-1", "2"], ["null", "true", "false"]
     rows = [(a, b, c, p, q) for a in ints[:4] for b in ints[:4] for c in ["null", "0", "2"] for p in bools for q in bools]
@@ -188,6 +198,14 @@ def run(R, only=None):
                 ("select x from a where not (x > 1 and y > 1)", None, {"demorgan"}),
                 ("select x, case when not (y > 0) then 1 else 2 end from a", None, {"null-rules"}),
                 ("select count(*) from a where x + 1 > 2 and x + 1 > 1", None, {"fold"}),
+                # one query per modelled plan rule family (filters above semi / anti / inner joins, stacked filters, filter above ORDER BY)
+                ("select x, y from a where not exists (select 1 from b where b.x = a.x) and y > 1", None, {"anti", "plan-rule"}),
+                ("select x, y from a where exists (select 1 from b where b.x = a.x) and y > 1", None, {"semi", "plan-rule"}),
+                ("select x, y from a where x in (select x from b where z > 1) and y > 0", None, {"semi", "plan-rule"}),
+                ("select t.x, t.y from (select a.x, a.y, b.z from a join b on a.x = b.x) t where t.y > 1 and t.z > 0", None, {"join", "plan-rule"}),
+                ("select x, y from (select x, y from (select x, y from a where x > 0) u where y > 0) t where x < 3", None, {"plan-rule"}),
+                ("select x, y from (select x, y from a order by y, x) t where x > 1", None, {"plan-rule"}),
+                ("select a.x, b.z, c.z from a join b on a.x = b.x join b c on b.z = c.z where a.y > 0", None, {"join", "plan-rule"}),
             ])
         engine = R.rng.choice(["mem", "disk"])
         steps = [{"sql": "create table a(x int, y int, s varchar)"}, {"sql": "create table b(x int, z int)"}]
@@ -282,12 +300,18 @@ def run(R, only=None):
                 "expressions), both engines, mocked row counts in 30% of the cases",
         "samples": [jobs[0]["steps"][-1]["sql"] if jobs else "", cases[0]["q"]],
         "rules_total": info.get("n_rules"), "expression_rules_proved_sound": len(info.get("expr_sound", [])),
-        "expression_rules_refuted": sorted(info.get("expr_refuted", {})), "plan_rules_not_proved": len(info.get("plan_rules", [])),
+        "expression_rules_refuted": sorted(info.get("expr_refuted", {})),
+        "plan_rules_proved_sound": info.get("plan_sound", []), "plan_rule_instances_proved_sound": info.get("plan_instances_sound", []),
+        "plan_rules_refuted": sorted(info.get("plan_refuted", {})),
+        "plan_rules_not_proved": sorted(set(info.get("plan_rules", [])) - set(info.get("plan_sound", [])) - set(info.get("plan_refuted", {}))),
         "rule_instances_differing": inst_diff, "query_kind_distribution": kinds, "queries_compared": compared,
     })
     R.coverage["trusted_base"].append("tools/translate_rules.py (regex reading of rw!(..) and of the pushdown(..) helper; its reading of names and patterns is "
                                       "compared with the compiled rule objects on every run; its reading of the side conditions is trusted)")
-    R.assumptions += ["plan rewrite rules (63) are not proved sound in Coq: they are covered by the end-to-end differential and, for buildability, by C17's theorems; "
+    R.assumptions += ["20 plan rewrite rules (plus 7 join-type instances) have Coq obligations under the bag semantics of Model/PlanSem.v (14 + 7 proved sound for "
+                      "every binding, 6 refuted); the other plan rules (projection pushdown, join swap, hash / merge join selection, sub-query un-nesting, "
+                      "index scans, order and range rules) are not proved: they are covered by the end-to-end differential and, for buildability, by C17's theorems; "
+                      "the side condition not_depend_on is read as: the columns the expression mentions are disjoint from the plan's schema; "
                       "egg's saturation and extraction are trusted to return a member of the rewrite closure", "soundness is modulo evaluation errors and ill-typed "
                       "instances (C14 / C16); floats, decimals, strings and dates are outside the rule theorems' value domain"]
 
